@@ -120,7 +120,7 @@ def run_witness(name):
   sc = kani.Scratch("witness")
   try:
     sc.populate(patch_tracing=False)
-    return kani.run_witness_test(sc, os.path.join(VERIF, spec["file"]))
+    return kani.run_witness_test(sc, os.path.join(VERIF, spec["file"]), append_to=spec.get("append_to"), test_filter=spec.get("test_filter"))
   finally:
     sc.cleanup()
 
